@@ -120,6 +120,13 @@ def check(run, driver):
         ys = np.sort(run.rng.random(m))
         xs[0], xs[-1], ys[0], ys[-1] = 0.0, 1.0, 0.0, 1.0
         polys.append((ys, xs))
+    for _ in range(30 if thorough else 8):       # long staircases: many points share an x value
+        m = int(rng.integers(300, 1200)) if False else int(run.rng.integers(300, 1200))
+        levels = int(run.rng.integers(2, 6))
+        xs = np.sort(run.rng.integers(0, levels + 1, size=m) / levels)
+        ys = np.sort(run.rng.random(m))
+        xs[0], xs[-1], ys[0], ys[-1] = 0.0, 1.0, 0.0, 1.0
+        polys.append((ys, xs))
     polys.append((np.array([0.0, 1.0, 1.0]), np.array([0.0, 0.0, 1.0])))
     polys.append((np.array([0.0, 0.0, 1.0]), np.array([0.0, 1.0, 1.0])))
     polys.append((np.array([0.0, 1.0]), np.array([0.0, 1.0])))
